@@ -4,11 +4,15 @@
     verb-support matrix as the agent declares it.
     [holds_on] is the verified acceptor (trace inclusion into the protocol automaton);
     [check_case] checks that the harness observed a complete, well-formed history. *)
-From Akita Require Import Lib.Base C18.Model.
+From Akita Require Import Lib.Base C18.Model C18.Ideal.
 Local Open Scope N_scope.
 
-Record case := mk_case {
-  c_agent : N; c_matrix : matrix; c_trace : list ev; c_clean : bool }.
+Inductive case :=
+| mk_case (c_agent : N) (c_matrix : matrix) (c_trace : list ev) (c_clean : bool)
+  (** exact tick-level tie of the ideal memory controller's control path: per tick of the real
+      component the inputs of [Ideal.ideal_tick] and what the tick did (responses sent on the
+      Control port, State.ControlState and State.CurrentCmdID afterwards) *)
+| IdealCase (ticks : list itick) (obs : list (list irsp * N * N)).
 
 Definition is_end (e : ev) : bool := match e with EEnd => true | _ => false end.
 
@@ -19,7 +23,26 @@ Definition trace_wf (tr : list ev) : bool :=
   | _ => false
   end.
 
-Definition check_case (c : case) : bool :=
-  c_clean c && trace_wf (c_trace c) && (length (c_matrix c) =? 6)%nat.
+Definition irsp_eqb (a b : irsp) : bool :=
+  match a, b with IRsp c1 r1 o1 e1, IRsp c2 r2 o2 e2 => (c1 =? c2) && (r1 =? r2) && Bool.eqb o1 o2 && (e1 =? e2) end.
 
-Definition holds_on (c : case) : bool := accepts (c_matrix c) (c_trace c).
+Fixpoint ideal_check (s : ist) (ticks : list itick) (obs : list (list irsp * N * N)) : bool :=
+  match ticks, obs with
+  | [], [] => true
+  | t :: r, (out, st, cur) :: ro =>
+      let '(s1, out', _) := ideal_tick (arrive s (k_arrivals t)) (k_free t) (k_empty t) in
+      list_eqb irsp_eqb out' out && (i_state s1 =? st) && (i_cur s1 =? cur) && ideal_check s1 r ro
+  | _, _ => false
+  end.
+
+Definition check_case (c : case) : bool :=
+  match c with
+  | mk_case _ M tr clean => clean && trace_wf tr && (length M =? 6)%nat
+  | IdealCase ticks obs => ideal_check ist0 ticks obs
+  end.
+
+Definition holds_on (c : case) : bool :=
+  match c with
+  | mk_case _ M tr _ => accepts M tr
+  | IdealCase _ _ => true
+  end.
